@@ -38,7 +38,8 @@ var histRoots = []string{"foo", "bar", "baz", "acme", "inner"}
 // genHistFamily: a holder package a.v1 and foreign packages x.v1, y.v1 (unrelated roots), a.x.v1, a.y.v1
 // (siblings below the holder's parent package, whose first part after the parent equals an unrelated root)
 // and a.v1.x.v1 (below the holder's own package). Every variant has all foreign packages; the holder files
-// a/v1/holder.j5s (+ a/v1/extra.j5s in some) import and reference a different subset of them in each variant:
+// a/v1/holder.j5s (+ a/v1/extra.j5s, + a hand-written a/v1/hand.proto with a nested message whose name differs
+// between the variants, in some) import and reference a different subset of them in each variant:
 // variant k>0 is variant 0 with one to three memberships toggled, the import order shuffled again.
 func genHistFamily(r *vh.Rand) histFamily {
 	roots := shuffled(r, histRoots)
@@ -97,8 +98,42 @@ func genHistFamily(r *vh.Rand) histFamily {
 		}
 		return out
 	}
+	// a hand-written .proto of the holder package at a shared path: a different import subset and a different
+	// NESTED message name in each variant (none, or the first part of a foreign / the own package: proto allows
+	// lower-case message names, so the nested message shadows the package name inside Hand). References are
+	// written fully qualified (leading dot) in the source; what the printer writes is its own decision.
+	hand := func(member []bool, nested string) string {
+		var used []string
+		for i, m := range member {
+			if m {
+				used = append(used, foreign[i])
+			}
+		}
+		used = shuffled(r, used)
+		var sb strings.Builder
+		sb.WriteString("syntax = \"proto3\";\n\npackage " + holderPkg + ";\n\n")
+		for _, p := range used {
+			sb.WriteString("import \"" + strings.ReplaceAll(p, ".", "/") + "/t.j5s.proto\";\n")
+		}
+		sb.WriteString("\nmessage Hand {\n")
+		if nested != "" {
+			sb.WriteString("  message " + nested + " {\n    string id = 1;\n  }\n")
+		}
+		sb.WriteString("  string id = 1;\n")
+		for i, p := range used {
+			fmt.Fprintf(&sb, "  .%s.Thing t%d = %d;\n", p, i, i+2)
+		}
+		sb.WriteString("}\n")
+		return sb.String()
+	}
+	nestedNames := []string{"", "", x, y, a, "Inner"}
 	nV := 3
 	fam := histFamily{Shared: []string{holderDir + "holder.j5s"}}
+	withHand := r.Chance(50)
+	if withHand {
+		fam.Shared = append(fam.Shared, holderDir+"hand.proto")
+	}
+	h0 := membership()
 	withExtra := r.Chance(40)
 	if withExtra {
 		fam.Shared = append(fam.Shared, holderDir+"extra.j5s")
@@ -116,6 +151,13 @@ func genHistFamily(r *vh.Rand) histFamily {
 		content[holderDir+"holder.j5s"] = source("Holder", m)
 		if withExtra {
 			content[holderDir+"extra.j5s"] = source("Extra", e)
+		}
+		if withHand {
+			h := h0
+			if k > 0 {
+				h = toggle(h0)
+			}
+			content[holderDir+"hand.proto"] = hand(h, nestedNames[r.Intn(len(nestedNames))])
 		}
 		fam.Variants = append(fam.Variants, bundleT{Content: content, Packages: append(append([]string{}, foreign...), holderPkg)})
 	}
